@@ -5,6 +5,7 @@ REAL pipeline on generated P-Code projects and records (P-Code function, fully n
 aligned stack pointer).  TLC model-checks the product machine spec/FrontEndMonitor.tla (P-Code reference semantics
 spec/Pcode.tla + spec/PcodeFn.tla against the IR reference semantics spec/IR.tla) over the recorded cases x initial states and
 evaluates the observation-prefix invariant in every state.  Python only shards, counts and maps TLC's verdicts to exit codes."""
+import concurrent.futures as cf
 import json
 import os
 import re
@@ -206,6 +207,8 @@ def _validate(rep, files, parallel, timeout):
             ev["bad_inits"] = [i for i, _ in inits]
             ev["bad_kinds"] = sorted(set(k for _, k in inits))
             known = core.match_known(rep.known, [ev], 0)
+            if known is not None:
+                stats["diverging_known"] = stats.get("diverging_known", 0) + len(inits)
             cex, first, verdicts = "", None, {}
             if known is None and ncex < 3:
                 ncex += 1
@@ -279,9 +282,12 @@ def check(seed, tier):
     rep = Report("X08", seed, tier)
     core.build_harness()
     quick = tier == "quick"
-    _self_check(rep)
-    meta = core.gen("X08", seed, tier, shards=4 if quick else 16)
-    results, stats = _validate(rep, meta["files"], parallel=4, timeout=1800 if quick else 7200)
+    # (M) the self-check of the monitor runs side by side with the validation of the recorded cases (<= 4 JVMs in total)
+    with cf.ThreadPoolExecutor(max_workers=1) as pool:
+        mc = pool.submit(_self_check, rep)
+        meta = core.gen("X08", seed, tier, shards=3 if quick else 12)
+        results, stats = _validate(rep, meta["files"], parallel=3, timeout=1800 if quick else 7200)
+        mc.result()
     _canary(rep, meta["files"], results)
     x = meta["extra"]
     lines = core.read_lines(meta["files"][0])
@@ -294,7 +300,7 @@ def check(seed, tier):
         "behaviours_compared_to_their_end": compared, "behaviours_ended": stats["ended"],
         "control_observations_matched": stats["control_observations_matched"],
         "behaviours_outside_input_class": {"dynamic": stats["outclass_dynamic"], "static": stats["outclass_static"]},
-        "diverging_behaviours": stats["diverging"],
+        "diverging_behaviours": stats["diverging"], "diverging_behaviours_known_finding": stats.get("diverging_known", 0),
         "distinct_nontrivial": meta["distinct_nontrivial"],
         "rule": "one program = one generated P-Code project with one function under test + the IR function the real front end (normalize, "
                 "into_ir_project, normalize_basic, normalize_optimize) produced from it; every (program, initial state) is one deterministic "
